@@ -74,9 +74,23 @@ func genConfig() config {
 	nb := pick(vf.Param("blocks", 2) + 1)
 	labelled := pick(2) == 1
 	for i := 0; i < nb; i++ {
-		b := block{hasLabel: labelled, x: genLit(0), inner: pick(2) == 1}
-		if labelled {
-			b.label = letters(1)
+		var x lit
+		if vf.Param("xkinds", 0) == 1 {
+			x = []lit{{"1.5", "1.5"}, {`"s"`, `"s"`}}[pick(2)]
+		} else {
+			x = genLit(0)
+		}
+		b := block{hasLabel: labelled, x: x, inner: vf.Param("lean", 0) == 0 && pick(2) == 1}
+		if labelled && vf.Param("lean", 0) == 1 {
+			b.label = []string{"a", "b"}[pick(2)]
+		} else if labelled {
+			// label bytes over {a, /, space}: includes the label "//", which is a comment
+			// marker only as a property name of a BODY object
+			l := vf.Str(vf.Param("llen", 2))
+			for k := 0; k < len(l); k++ {
+				vf.Assume(l[k] == 'a' || l[k] == '/' || l[k] == ' ')
+			}
+			b.label = l
 		}
 		c.blocks = append(c.blocks, b)
 	}
@@ -200,7 +214,7 @@ func specFor(labelled bool, which int) hcldec.Spec {
 func H_Same() {
 	c := genConfig()
 	form := pick(3)
-	comment := pick(2) == 1
+	comment := vf.Param("lean", 0) == 0 && pick(2) == 1
 	nsrc, jsrc := nativeSrc(c), jsonSrc(c, form, comment)
 	vf.Observe("native", nsrc)
 	vf.Observe("json", jsrc)
